@@ -176,13 +176,21 @@ impl Storable for AnnotationDataSet {
     fn merge(&mut self, other: Self) -> Result<(), StamError> {
         let merge = self.config.merge;
         self.config.merge = true; //enable merge mode for underlying keys and data
+        //the keys of the other set get a handle of this set, the data refers to its key by handle and has to follow
+        let mut keymap: Vec<Option<DataKeyHandle>> = Vec::with_capacity(other.keys.len());
         for key in other.keys {
-            if let Some(key) = key {
-                self.insert(key.unbind())?;
-            }
+            keymap.push(match key {
+                Some(key) => Some(self.insert(key.unbind())?),
+                None => None,
+            });
         }
         for data in other.data {
-            if let Some(data) = data {
+            if let Some(mut data) = data {
+                data.key = keymap
+                    .get(data.key.as_usize())
+                    .copied()
+                    .flatten()
+                    .ok_or_else(|| StamError::HandleError("DataKey of merged AnnotationData"))?;
                 self.insert(data.unbind())?;
             }
         }
